@@ -607,7 +607,10 @@ fn exec_spec(
             }
             rep.nontrivial(out.decisions_hash);
             judge(&spec, &expected, &out, &mut rep);
-            if rep.samples.len() < 2 {
+            // one sample of the sweep, the others from the randomly scheduled runs
+            let is_sweep = matches!(spec.policy, Policy::Fixed(_));
+            let have_sweep = rep.samples.iter().any(|s| s["policy"].as_str().map_or(false, |p| p.starts_with("fixed")));
+            if rep.samples.len() < 3 && !(is_sweep && have_sweep) && (is_sweep || out.steps > 20) {
                 rep.samples.push(json!({
                     "tree_nodes": spec.tree.nodes.len(), "roots": spec.roots, "workers": spec.workers,
                     "policy": spec.policy.name(), "quit_at": spec.quit_at, "hook_steps": out.steps,
